@@ -81,6 +81,34 @@ func (o *Origins) AcceptEdges(cond *Cond) map[Edge]bool {
 			}
 		}
 	}
+	// tail calls: "return g(...)" passes g's error on untested. Such a return is a success return only
+	// if g succeeded, so when "g's error is nil" establishes cond (directly, or through g's summary)
+	// the return is behind the condition: recorded as a pseudo edge of the return's block.
+	for _, r := range Returns(o.Fn) {
+		n := len(r.Results)
+		if n == 0 || !IsErrorType(r.Results[n-1].Type()) {
+			continue
+		}
+		ev := o.Of(r.Results[n-1])
+		alts := ev.Alts()
+		if len(alts) == 0 {
+			continue
+		}
+		all := true
+		for _, a := range alts {
+			if a.K != "call" || a.Call == nil || a.Call.Block() != r.Block() {
+				all = false
+				break
+			}
+		}
+		if !all {
+			continue
+		}
+		f := &Fact{Kind: "errnil", Pos: true, A: ev}
+		if (cond.ForAll == "" && cond.Match(f, o)) || o.calleesEstablish(ev, cond, true) {
+			acc[Edge{r.Block(), -1}] = true
+		}
+	}
 	if cond.ForAll != "" {
 		inner := &Cond{Name: cond.Name, Match: cond.Match, Via: cond.Via}
 		for _, l := range o.Loops.Loops {
